@@ -67,6 +67,12 @@ io_status_t PacketTunnelIOGateway :: DoInputImplementation(AbstractGatewayMessag
             const uint32 totalSize = unflat.ReadInt32();
 //printf("   PARSE magic=" UINT32_FORMAT_SPEC "/" UINT32_FORMAT_SPEC " sex=" UINT32_FORMAT_SPEC "/" UINT32_FORMAT_SPEC " messageID=" UINT32_FORMAT_SPEC " offset=" UINT32_FORMAT_SPEC " chunkSize=" UINT32_FORMAT_SPEC " totalSize=" UINT32_FORMAT_SPEC "\n", magic, _magic, sexID, _sexID, messageID, offset, chunkSize, totalSize);
 
+            if ((magic == _magic)&&((_sexID == 0)||(_sexID != sexID))&&(unflat.GetNumBytesAvailable() >= chunkSize)&&(totalSize > _maxIncomingMessageSize))
+            {
+               (void) unflat.SeekRelative(chunkSize);  // a fragment of a too-large Message:  skip just this fragment, the fragments that follow it in this packet are still good
+               continue;
+            }
+
             if ((magic == _magic)&&((_sexID == 0)||(_sexID != sexID))&&((unflat.GetNumBytesAvailable() >= chunkSize)&&(totalSize <= _maxIncomingMessageSize)))
             {
                ReceiveState * rs = _receiveStates.GetAndMoveToBack(fromIAP);  // keep the "hot" ReceiveStates at the end of the iteration-list
